@@ -292,27 +292,17 @@ pub fn run(ctx: &Arc<Ctx>) {
     ctx.note_bound(format!("{} tamper configurations", cfgs.len()));
     // ---- E1: adversary model
     {
-        let c2 = ctx.clone();
-        let cf = Arc::new(cfgs.clone());
-        let cf2 = cf.clone();
-        let model = HistModel {
-            inits: (0..cf.len() as u16).map(|i| vec![i]).collect(),
-            actions: Box::new(move |h: &[u16]| next_choices(&h[1..])),
-            visit: Arc::new(move |h: &[u16]| {
-                let adv = h[1..].to_vec();
-                // judged when a delivery completes a protocol step
-                if matches!(adv.len(), 0 | 1 | 3 | 5) {
-                    let c = Case { cfg: cf2[h[0] as usize].clone(), adv, tag: if h[0] == 0 { "annex".into() } else { format!("cfg{}", h[0] % 4) } };
-                    eval(&c2, &c);
-                    prefix_push(serde_json::to_value(&c).unwrap());
-                }
-            }),
-            batch: 8,
-        };
-        let st = explore(model);
+        let (st, hists) = explore_collect((0..cfgs.len() as u16).map(|i| vec![i]).collect(), Box::new(move |h: &[u16]| next_choices(&h[1..])));
+        // judged when a delivery completes a protocol step
+        let mitm: Vec<Case> = hists
+            .iter()
+            .filter(|h| matches!(h.len() - 1, 0 | 1 | 3 | 5))
+            .map(|h| Case { cfg: cfgs[h[0] as usize].clone(), adv: h[1..].to_vec(), tag: if h[0] as usize / klens.len() == 0 { "annex".into() } else { format!("cfg{}", h[0] as usize / klens.len()) } })
+            .collect();
         ctx.depth(st.max_depth);
-        ctx.cov("adversary_model", json!({"configurations": cf.len(), "unique_states": st.unique_states, "generated": st.generated, "max_depth": st.max_depth, "point_choices": POINT_ADV, "hash_choices": HASH_ADV}));
-        ctx.sample(json!({"cfg": cf[0], "adv": [1, 0, 0, 2, 0], "tag": "annex"}));
+        ctx.cov("adversary_model", json!({"configurations": cfgs.len(), "unique_states": st.unique_states, "generated": st.generated, "max_depth": st.max_depth, "histories_judged": mitm.len(), "point_choices": POINT_ADV, "hash_choices": HASH_ADV}));
+        ctx.sample(serde_json::to_value(&mitm[mitm.len() - 1]).unwrap());
+        run_cases(ctx, &mitm, 2, eval);
     }
     // ---- honest paths: every klen, nonce product
     let mut cases: Vec<Case> = Vec::new();
